@@ -102,15 +102,24 @@ func RegisterDirective(d Directive) {
 
 func Run(file *paths.Path, profile string) (string, error) {
 	var err error
-	for _, match := range regDirective.FindAllStringSubmatch(profile, -1) {
-		opt := NewOption(file, match)
-		drtv, ok := Directives[opt.Name]
-		if !ok {
-			return "", fmt.Errorf("unknown directive '%s' in %s", opt.Name, opt.File)
+
+	// A directive can bring new directives in the profile (stack): scan again
+	// until none is left.
+	for depth := 0; depth < 10; depth++ {
+		matches := regDirective.FindAllStringSubmatch(profile, -1)
+		if len(matches) == 0 {
+			break
 		}
-		profile, err = drtv.Apply(opt, profile)
-		if err != nil {
-			return "", fmt.Errorf("%s %s: %w", drtv.Name(), opt.File, err)
+		for _, match := range matches {
+			opt := NewOption(file, match)
+			drtv, ok := Directives[opt.Name]
+			if !ok {
+				return "", fmt.Errorf("unknown directive '%s' in %s", opt.Name, opt.File)
+			}
+			profile, err = drtv.Apply(opt, profile)
+			if err != nil {
+				return "", fmt.Errorf("%s %s: %w", drtv.Name(), opt.File, err)
+			}
 		}
 	}
 	return profile, nil
